@@ -73,6 +73,48 @@ def one(args):
     return name, tool, res
 
 
+def write_project(root, k):
+    """A three-file project: main imports lib/geo<k>.nano, which imports its sibling shp<k>.nano; main asks for the
+    module introspection strings (path, has_ffi) that the compilers copy into their output."""
+    os.makedirs(os.path.join(root, "lib"), exist_ok=True)
+    open(os.path.join(root, "main.nano"), "w").write(
+        'import "lib/geo%d.nano"\n\nextern fn ___module_path_shp%d() -> string\nextern fn ___module_has_ffi_shp%d() -> bool\n\n'
+        'fn where() -> string {\n    return (___module_path_shp%d)\n}\n\n'
+        'fn main() -> int {\n    (println (int_to_string (double_area %d 4)))\n    (println (where))\n    (println (___module_has_ffi_shp%d))\n    return 0\n}\n'
+        % (k, k, k, k, k + 2, k))
+    open(os.path.join(root, "lib", "geo%d.nano" % k), "w").write(
+        'import "shp%d.nano"\n\npub fn double_area(w: int, h: int) -> int {\n    return (* 2 (rect_area w h))\n}\n\nshadow double_area {\n    assert (== (double_area 2 3) 12)\n}\n' % k)
+    open(os.path.join(root, "lib", "shp%d.nano" % k), "w").write(
+        'pub fn rect_area(w: int, h: int) -> int {\n    return (* w h)\n}\n\nshadow rect_area {\n    assert (== (rect_area 2 3) 6)\n}\n')
+
+
+def relocated(tdir, work, k, tool):
+    """Same project, same relative command line, two different directories and three heap fill patterns."""
+    res = {}
+    for cname, sub, envo in (("place-a", "first/place", {}), ("place-b", "second/somewhere/else", {}),
+                             ("place-a-perturb85", "first/place", {"MALLOC_PERTURB_": "85"}), ("place-b-perturb170", "second/somewhere/else", {"MALLOC_PERTURB_": "170"})):
+        root = os.path.join(work, "reloc%d-%s" % (k, tool), sub, "proj")
+        if not os.path.exists(root):
+            write_project(root, k)
+        env = dict(os.environ); env.update(envo)
+        if tool == "virt":
+            cmd = [os.path.join(tdir, "bin", "nano_virt"), "main.nano", "--emit-nvm", "-o", "out.nvm"]; art = "out.nvm"
+        else:
+            cmd = [os.path.join(tdir, "bin", "nanoc_c"), "main.nano", "-o", "out.bin", "--keep-c"]; art = "out.bin.c"
+        env["NANO_HOME"] = tdir
+        try:
+            p = subprocess.run(cmd, cwd=root, env=env, stdout=subprocess.PIPE, stderr=subprocess.PIPE, timeout=120)
+            rc = p.returncode
+        except subprocess.TimeoutExpired:
+            rc = "timeout"
+        a = os.path.join(root, art)
+        data = open(a, "rb").read() if os.path.exists(a) else b"missing"
+        import re
+        data = re.sub(rb"nanoc_\d+_", b"nanoc_<PID>_", data)
+        res[cname] = (rc, hashlib.sha256(data).hexdigest())
+    return "reloc%d" % k, tool, res
+
+
 def run(ctx):
     info = common.prove(ctx, MODULE, [])
     quick = ctx.tier == "quick"
@@ -102,6 +144,7 @@ def run(ctx):
         jobs += [(tdir, work, n, p, "nanoc") for n, p in nat]
         with ThreadPoolExecutor(8) as ex:
             results = list(ex.map(one, jobs))
+            rel = list(ex.map(lambda a: relocated(*a), [(tdir, work, k, t) for k in range(2 if quick else 10) for t in ("virt", "nanoc")]))
     finally:
         shutil.rmtree(work, ignore_errors=True)
     nconf = 0
@@ -121,6 +164,18 @@ def run(ctx):
                 oracle_fail.append({"program": name, "tool": tool, "config": cname, "why": "diagnostics differ from the baseline configuration (paths, pids normalised)",
                                     "baseline_diag": b[3], "this_diag": r[3]})
                 break
+    for name, tool, res in rel:
+        ctx.case(name + ":" + tool)
+        b = res["place-a"]
+        for cname, r in res.items():
+            ctx.evals += 1
+            if r != b:
+                oracle_fail.append({"program": name + " (main.nano + lib/geoN.nano + lib/shpN.nano, see harness/props/c19.py write_project)", "tool": tool, "config": cname,
+                                    "why": "same project and relative command line, different directory / heap fill pattern: artifact differs", "baseline": list(b), "this": list(r)})
+                break
+        if b[0] != 0:
+            oracle_fail.append({"program": name, "tool": tool, "why": "relocated project does not compile", "rc": b[0]})
+    ctx.cov["relocated_projects"] = len(rel)
     ctx.cov["programs"] = len(results)
     ctx.cov["configurations_per_program"] = len(configs("", "")) - (0 if have_setarch else 1)
     ctx.cov["compilations"] = nconf
